@@ -224,6 +224,7 @@ pub mod vharness {
 
     //@harness props=C15 strength=proof clause="level chain: parsing starts at the loosest level (||, 14); the operand of level L is parsed at level L-1 for every L, and the operand of the tightest binary level (5: * / %) is a unary expression - so a tighter operator always ends up deeper in the tree"
     #[kani::proof]
+    #[kani::unwind(6)]
     fn prec_level_chain() {
         assert!(state_level(&pieces::the_init_state()) == Some(14), "C15:parser:parsing-starts-at-the-loosest-level");
         let k = any_level();
@@ -237,6 +238,7 @@ pub mod vharness {
 
     //@harness props=C15,C01 strength=proof clause="entering level L pushes 'left operand of L pending' and descends one level; nothing is consumed"
     #[kani::proof]
+    #[kani::unwind(6)]
     fn prec_binary_arm() {
         let k = any_level();
         let cur = any_token_kind();
@@ -249,10 +251,12 @@ pub mod vharness {
         match st { State::Binary(n) => assert!(level_of(n) + 1 == l, "C15:parser:binary-arm-descends-one-level"),
                    State::Unary => assert!(l == 5, "C15:parser:binary-arm-descends-one-level"),
                    _ => assert!(false, "C15:parser:binary-arm-descends-one-level") }
+        core::mem::forget(stack);   // harness only: dropping a Vec<StackItem> makes CBMC unwind its drop loop without bound
     }
 
     //@harness props=C15,C01 strength=proof clause="after a left operand at level L, for EVERY current token and every two tokens of lookahead: a binary operator is accepted exactly when its level in the Jsonnet table is L; then it is consumed, recorded with the AST operator the specification names, and its right operand is parsed one level tighter while the level L stays open (left associativity); any other token ends level L with the operand unchanged and nothing consumed; `e in super` (not followed by . or [) forms an InSuper node that continues at the same level" timeout=900 replay=parser_prec
     #[kani::proof]
+    #[kani::unwind(6)]
     fn prec_binary_rhs_arm() {
         let k = any_level();
         let l = level_of(k);
@@ -305,10 +309,12 @@ pub mod vharness {
         kani::cover!(spec.is_some() && spec.unwrap().0 == l, "cover:parser:operator-accepted");
         kani::cover!(spec.is_some() && spec.unwrap().0 != l, "cover:parser:operator-of-another-level");
         kani::cover!(in_super_node, "cover:parser:in-super");
+        core::mem::forget(stack);   // harness only: dropping a Vec<StackItem> makes CBMC unwind its drop loop without bound
     }
 
     //@harness props=C15,C01 strength=proof clause="`in super` followed by . or [ is the ordinary operator `in` whose right operand starts with super" timeout=900
     #[kani::proof]
+    #[kani::unwind(6)]
     fn prec_in_super_field() {
         let dot: bool = kani::any();
         let n2 = if dot { TokenKind::Simple(K::Dot) } else { TokenKind::Simple(K::LeftBracket) };
@@ -318,10 +324,12 @@ pub mod vharness {
         assert!(p.cur_span() == sp[2] && stack.len() == 1, "C15:parser:in-before-super-field-consumes-only-in");
         assert!(matches!(stack[0], StackItem::BinaryRhs(k2, _, BinaryOp::In) if level_of(k2) == 8), "C15:parser:in-before-super-field-is-binary-in");
         assert!(state_level(&st) == Some(7), "C15:parser:right-operand-is-parsed-one-level-tighter");
+        core::mem::forget(stack);   // harness only: dropping a Vec<StackItem> makes CBMC unwind its drop loop without bound
     }
 
     //@harness props=C15,C01 strength=proof clause="completing the left operand of level L continues at level L with that operand (any level)"
     #[kani::proof]
+    #[kani::unwind(6)]
     fn prec_parsed_lhs_arm() {
         let k = any_level();
         let (mut p, ctx, sp) = parser_at(any_token_kind(), ident(2), TokenKind::EndOfFile);
@@ -332,6 +340,7 @@ pub mod vharness {
 
     //@harness props=C15,C01 strength=proof clause="completing the right operand of `lhs op _` at level L builds Binary(lhs, op, rhs) spanning from lhs's first byte to rhs's last, and CONTINUES AT LEVEL L with that node as the new left operand - i.e. a op b op' c at one level groups (a op b) op' c (left associativity), for every level and operator" timeout=900
     #[kani::proof]
+    #[kani::unwind(6)]
     fn prec_parsed_rhs_arm() {
         let k = any_level();
         let opi: usize = kani::any(); kani::assume(opi < N_K);
@@ -356,6 +365,7 @@ pub mod vharness {
 
     //@harness props=C15,C01 strength=proof clause="at unary position, for EVERY token: + - ~ ! are consumed and recorded with the specified AST operator and the parser stays at unary position (so unary operators nest and bind tighter than every binary operator); any other token starts a primary expression followed by its suffixes, nothing consumed" timeout=900
     #[kani::proof]
+    #[kani::unwind(6)]
     fn prec_unary_arm() {
         let cur = any_token_kind();
         let (mut p, ctx, sp) = parser_at(cur, ident(2), TokenKind::EndOfFile);
@@ -375,10 +385,12 @@ pub mod vharness {
             }
         }
         kani::cover!(spec.is_some(), "cover:parser:unary-operator");
+        core::mem::forget(stack);   // harness only: dropping a Vec<StackItem> makes CBMC unwind its drop loop without bound
     }
 
     //@harness props=C15,C01 strength=proof clause="completing the operand of a unary operator builds Unary(op, operand) spanning operator to operand end and hands it up as a finished expression"
     #[kani::proof]
+    #[kani::unwind(6)]
     fn prec_parsed_unary_arm() {
         let which: u8 = kani::any();
         let op = match which & 3 { 0 => UnaryOp::Minus, 1 => UnaryOp::Plus, 2 => UnaryOp::BitwiseNot, _ => UnaryOp::LogicNot };
@@ -395,12 +407,14 @@ pub mod vharness {
 
     //@harness props=C15,C01 strength=proof expect=fail clause="canary"
     #[kani::proof]
+    #[kani::unwind(6)]
     fn parser_canary() {
         let k = any_level();
         let (mut p, ctx, sp) = parser_at(TokenKind::Simple(K::Plus), ident(2), ident(3));
         let mut stack: pieces::Stack<'static, 'static> = Vec::new();
         let st = p.arm_binary_rhs(&mut stack, k, leaf(1, sp[0]));
         assert!(stack.len() == 1, "canary:parser:plus-is-accepted-at-every-level");
+        core::mem::forget(stack);   // harness only: dropping a Vec<StackItem> makes CBMC unwind its drop loop without bound
     }
 }
 }
